@@ -84,6 +84,14 @@ def core(ctx):
         nodes = [[names[i], ring[i], [names[i - 1]], i == 0] for i in range(len(ring))]
         yield {"kind": "small", "spec": {"name": "c", "nodes": nodes, "bbtypes": [], "insts": []},
                "assume": [], "allsingle": True}
+    # loops made of buffers only (every member equals every other), with readers hanging on them
+    for k in range(1, 7):
+        for names in ([f"b{i}" for i in range(k)], ["q", "n1", "w", "fb", "x_", "loop"][:k], [f"r_{9 - i}" for i in range(k)]):
+            nodes = [[names[i], "buf", [names[i - 1]], i == 0] for i in range(k)]
+            nodes.append(["rd", "buf", [names[k // 2]], True])
+            nodes.append(["inv", "not", [names[-1]], True])
+            yield {"kind": "small", "spec": {"name": "c", "nodes": nodes, "bbtypes": [], "insts": []},
+                   "assume": [[names[0], False], [names[-1], True]] if k > 1 else [], "allsingle": True}
     for t in ("and", "nor", "xor", "xnor", "nand", "or"):
         nodes = [["a", "input", [], False], ["g", t, ["a", "h"], True], ["h", "buf", ["g"], False]]
         yield {"kind": "small", "spec": {"name": "c", "nodes": nodes, "bbtypes": [], "insts": []},
